@@ -25,6 +25,11 @@ HAZARD_KINDS = ["floordiv", "mod", "truediv", "pow", "andor", "bool-text", "cont
                 "stale-len", "first-assign-in-loop-branch", "for-var-assign", "for-bound", "list-local",
                 "list-append-literal", "stmt-call-types", "uncalled-helper", "param-retype"]
 
+NAME_STEMS = ["from_", "import_", "ifx_", "for_", "while_", "def_", "pass_", "print_", "try_", "else_", "elif_", "return_", "global_", "break_",
+              "continue_", "not_", "and_", "or_", "in_", "is_", "led_", "sleep_", "target_", "mon_", "len_", "range_", "true_", "none_", "class_",
+              "with_", "as_", "del_", "lambda_", "int_", "float_", "str_", "bool_", "list_", "loop_", "setup_", "delay_", "serial_", "string_",
+              "importance", "fromage", "iffy", "format", "define", "passed", "tryout", "whiles", "forty", "printer", "targets", "sleeper", "_", "__x"]
+
 STR_ATOMS = ["a", "b", "ok", "x1", "go", "Z", "hi there", "n=", "-", "v:"]
 
 
@@ -87,6 +92,10 @@ class ProgGen:
 
     def fresh(self, prefix="v"):
         self.counter += 1
+        if self.r.random() < 0.3:
+            # identifiers that merely START like a keyword, a builtin or a DSL name (never equal to one: the counter follows)
+            self.feat("keywordish-identifier")
+            return f"{self.r.choice(NAME_STEMS)}{prefix}{self.counter}"
         return f"{prefix}{self.counter}"
 
     def visible(self, type_=None, pred=None):
@@ -424,6 +433,21 @@ class ProgGen:
         else:
             self.emit(f"mon.write({v.name})")
 
+    def observe_len(self, v):
+        """The length of a str variable (and of strings derived from it) right after it was set from literals in the same
+        block, as the transpiler may fold it. (Only then: a length folded after an assignment made in a nested block is
+        the known stale-constant finding.)"""
+        if self.pure or v.type != "str" or v.ro or not self.chance(0.3):
+            return
+        self.feat("len(str-var)")
+        self.emit(f"{v.name} = {self.str_lit()}")
+        if self.chance(0.7):
+            self.emit(f"{v.name} += {self.str_lit()}")
+            self.feat("len(str-var)-after-augassign")
+        form = self.r.choice(["len({n})", "len({n} + \"!\")", "len(f\"n={{{n}}}\")", "len({n}) * 2 + 1"])
+        self.emit("mon.write(" + form.replace("{n}", v.name) + ")")
+        self.obs += 1
+
     # ---- statements ----------------------------------------------------------------------
     def stmt(self, depth):
         r = self.r
@@ -436,6 +460,10 @@ class ProgGen:
         if depth < 3:
             choices += ["if"] * 3 + ["for"] * 2 + ["while"] * 2 + ["if_define"] * 2 + ["nested_if"]
         choices += ["tuple_new", "tuple_update"]
+        if depth < 3 and not self.in_main_loop:
+            choices += ["loop_reset"]
+        if self.in_main_loop and depth == 1:
+            choices += ["loop_local"] * 2
         if len(self.visible()) >= 2:
             choices += ["swap"]
         if self.use_lists:
@@ -488,6 +516,7 @@ class ProgGen:
         self.feat("assign-" + t)
         if depth > 0:
             self.feat("first-assign-nested")
+        self.observe_len(v)
         if self.chance(0.5):
             self.observe(v)
 
@@ -498,6 +527,7 @@ class ProgGen:
         v = self.r.choice(cands)
         self.emit(f"{v.name} = {self.new_value(v.type)}")
         self.feat("reassign")
+        self.observe_len(v)
         if self.chance(0.5):
             self.observe(v)
 
@@ -520,6 +550,7 @@ class ProgGen:
             rhs = self.str_lit() if (looping or self.chance(0.7)) else self.e_str(2)
         self.emit(f"{v.name} {op} {rhs}")
         self.feat("augassign-" + v.type)
+        self.observe_len(v)
         if self.chance(0.5):
             self.observe(v)
 
@@ -677,6 +708,73 @@ class ProgGen:
         self.emit("else:")
         self.block(depth, n=self.r.randint(1, 2))
         self.observe()
+
+    def s_loop_reset(self, depth):
+        """A name whose FIRST assignment in the script sits inside a (non-main) loop body and stores the type's default
+        value - the per-iteration reset idiom; it is changed later in the same iteration and observed."""
+        self.feat("loop-reset-default")
+        t = self.r.choice(["int", "int", "float", "bool", "str"])
+        name = self.fresh({"int": "i", "float": "f", "str": "s", "bool": "b"}[t])
+        iv = self.fresh("k")
+        n = self.r.randint(2, 3)
+        for_form = self.chance(0.6)
+        if for_form:
+            self.emit(f"for {iv} in range({n}):")
+        else:
+            self.emit(f"{iv} = 0")
+            self.emit(f"while {iv} < {n}:")
+            self.ind += 1
+            self.emit(f"{iv} += 1")
+            self.ind -= 1
+        self.ind += 1
+        default = {"int": "0", "float": "0.0", "bool": "False", "str": '""'}[t]
+        self.emit(f"{name} = {default}")
+        if t == "int":
+            self.emit(f"{name} = {name} + {iv} + {self.r.randint(1, 5)}")
+        elif t == "float":
+            self.emit(f"{name} = {name} + {self.float_lit()}")
+        elif t == "bool":
+            self.emit(f"if {iv} >= 0:")
+            self.emit(f"    {name} = True")
+        else:
+            self.emit(f"{name} = {name} + {self.str_lit()}")
+        self.emit(f"mon.write({'int(' + name + ')' if t == 'bool' else name})")
+        self.obs += 1
+        self.ind -= 1
+        if not for_form:
+            # (a `for` variable read after its loop is not declared in the generated C++: known finding, not generated here)
+            self.declare(iv, "int", ro=True)
+        self.declare(name, t)
+
+    def s_loop_local(self, depth):
+        """Directly in the `while True:` body: a name first assigned there from a literal, changed later in the same pass
+        (Python re-runs the assignment on every pass)."""
+        self.feat("main-loop-literal-local")
+        if self.chance(0.3):
+            a, b = self.fresh("i"), self.fresh("i")
+            x, y = self.r.randint(0, 5), self.r.randint(6, 12)
+            self.emit(f"{a}, {b} = {x}, {y}")
+            self.emit(f"{a} += {self.r.randint(1, 4)}")
+            self.emit(f"{b} = {b} - {a}")
+            self.emit(f'mon.write(f"p{{{a}}}q{{{b}}}")')
+            self.declare(a, "int")
+            self.declare(b, "int")
+        else:
+            t = self.r.choice(["int", "int", "float", "bool", "str"])
+            name = self.fresh({"int": "i", "float": "f", "str": "s", "bool": "b"}[t])
+            lit = {"int": self.int_lit(), "float": self.float_lit(), "bool": self.r.choice(["True", "False"]), "str": self.str_lit()}[t]
+            self.emit(f"{name} = {lit}")
+            v = self.declare(name, t)
+            if t == "int":
+                self.emit(f"{name} += {self.r.randint(1, 4)}")
+            elif t == "float":
+                self.emit(f"{name} = {name} + {self.float_lit()}")
+            elif t == "bool":
+                self.emit(f"{name} = not {name}")
+            else:
+                self.emit(f"{name} = {name} + {self.str_lit()}")
+            self.observe(v)
+        self.obs += 1
 
     def s_for(self, depth):
         self.feat("for-range")
